@@ -30,6 +30,7 @@ class K:
         self.octor = None    # vis of K(int) or None
         self.cctor = None    # SM
         self.mctor = None    # SM (move constructor)
+        self.massign = None  # mode of a declared move assignment operator ("decl" / "default" / "delete"), or None
         self.dtor = None     # SM
         self.fields = []
         self.vfns = []
@@ -76,6 +77,8 @@ class K:
             members.append((self.cctor.vis, sm_text("%s(const %s &)" % (n, me), self.cctor)))
         if self.mctor:
             members.append((self.mctor.vis, sm_text("%s(%s &&)" % (n, me), self.mctor)))
+        if self.massign:
+            members.append(("public", "%s &operator = (%s &&)%s;" % (me, me, {"decl": "", "default": " = default", "delete": " = delete"}[self.massign])))
         if self.dtor:
             members.append((self.dtor.vis, sm_text("~%s()" % n, self.dtor)))
         for f in self.vfns:
@@ -140,6 +143,8 @@ def gen_hierarchy(rng, n, allow_virtual_bases=True, covariant_p=0.3, bias=None, 
             k.cctor = SM(rng.choice(viss), rng.choice(modes))
         if rng.random() < 0.1:
             k.mctor = SM("public", rng.choice(["decl", "default", "delete"]))
+        if rng.random() < 0.12:
+            k.massign = rng.choice(["decl", "decl", "default", "delete"])
         if rng.random() < (0.6 if bias else 0.35):
             pure = rng.random() < 0.12
             k.dtor = SM(rng.choice(viss + ["public"]), "decl" if pure else rng.choice(modes),
@@ -199,11 +204,11 @@ def enc_sm(sm):
 
 
 def enc_class(k):
-    """K <nbases> (base vis virt)* dctor octor cctor mctor dtor <nfields> fields* <nvf> vfs*"""
+    """K <nbases> (base vis virt)* dctor octor cctor mctor dtor massign <nfields> fields* <nvf> vfs*"""
     out = ["K", str(len(k.bases))]
     for b, a, v in k.bases:
         out += [enc_class(b), str(VISN[a]), "1" if v else "0"]
-    out += [enc_sm(k.dctor), "-" if k.octor is None else str(VISN[k.octor]), enc_sm(k.cctor), enc_sm(k.mctor), enc_sm(k.dtor)]
+    out += [enc_sm(k.dctor), "-" if k.octor is None else str(VISN[k.octor]), enc_sm(k.cctor), enc_sm(k.mctor), enc_sm(k.dtor), "m" if k.massign else "-"]
     out.append(str(len(k.fields)))
     for f in k.fields:
         code = {"int": "i", "cint": "c", "ref": "r", "cls": "k"}[f.kind] + ("1" if f.init else "0") + ("s" if f.static else "n")
